@@ -17,6 +17,18 @@ RULE = ("corr: sigmoid / erf / fallback interpolation / Maxwellian retention / p
 _grids = {}
 
 
+def lean_targets(ctx):
+    """kernel-check the fallback column (0 ≤ fb ≤ 1) of the uSSE tables this run uses (thorough: all of them)"""
+    import translate
+    which = set()
+    for sn in ("rapid", "delayed"):
+        g = feh_grid(sn)
+        picks = g if not ctx.quick else [g[0], g[-1], -1.0, 0.0, -0.5, -2.0]
+        for f in picks:
+            which.add((f"uSSE_{sn}", f"IFMR_FEH{f:+.2f}"))
+    return translate.table_modules(which)
+
+
 def feh_grid(sn):
     if sn not in _grids:
         _grids[sn] = sorted(float(p.stem.split("FEH")[-1]) for p in ifmr.get_data(f"ifmr/uSSE_{sn}").glob("*dat"))
